@@ -34,12 +34,27 @@ impl Prop for C08 {
         "C08"
     }
     fn strategy(&self, tier: Tier) -> BoxedStrategy<DripCase> {
-        dripcase_strategy(
-            spec_strategy(),
-            tier.pick(20_000, 60_000) as u32,
-            tier.pick(60, 150) as usize,
-            prop_oneof![3 => Just(0u16), 1 => 16u16..200].boxed(),
+        // one case in twelve is four times as long: the one-shot twin then sees 50 000+ samples
+        // in a single work() call (per-call caps, index widths), the drip twin never more than
+        // a few pages
+        (
+            dripcase_strategy(
+                spec_strategy(),
+                tier.pick(20_000, 60_000) as u32,
+                tier.pick(60, 150) as usize,
+                prop_oneof![3 => Just(0u16), 1 => 16u16..200].boxed(),
+            ),
+            0u8..12,
         )
+            .prop_map(|(mut c, long)| {
+                if long == 0 {
+                    for g in c.gens.iter_mut() {
+                        g.len = g.len.saturating_mul(4);
+                    }
+                }
+                c
+            })
+            .boxed()
     }
     fn cases(&self, tier: Tier) -> u64 {
         tier.pick(24_000, 400_000)
